@@ -701,6 +701,22 @@ pub fn parse_mutn(s: &str) -> Mutn {
 fn replay(ctx: &Ctx, path: &std::path::Path) -> i32 {
     let doc: Value = serde_json::from_str(&std::fs::read_to_string(path).expect("replay file")).expect("json");
     let r = &doc["replay"];
+    if !r["certificate_catalog"].is_null() {
+        let mut report = Report::new();
+        match super::c19::replay_label(&r["certificate_catalog"]) {
+            Err(e) => {
+                eprintln!("MACHINERY: {}", e);
+                return 2;
+            }
+            Ok(v) => {
+                for (sig, what) in v {
+                    println!("  {} {}", sig, what);
+                    report.violation(sig.replacen("C19:", "C01:certificate-catalog:", 1), what, r.clone());
+                }
+            }
+        }
+        return common::finish(ctx, report, Evidence::new("model_checking"));
+    }
     let cred = all_creds().into_iter().find(|c| format!("{:?}", c) == r["cred"].as_str().unwrap_or("")).unwrap_or(CredCfg::Valid);
     let tgt = |v: &Value| Target { from: v["from"].as_u64().unwrap() as usize, opcode: v["opcode"].as_u64().unwrap() as u8, nth: v["nth"].as_u64().unwrap() as usize };
     let spec = RunSpec {
@@ -845,6 +861,18 @@ pub fn run_check(ctx: &Ctx) -> i32 {
             }
         }
     }
+    // the per-field certificate defect catalog (C19's) presented through the real handshake, by
+    // either side: a session may only come out of the defect-free chains
+    let (cat_violations, cat_runs, cat_sessions) = match super::c19::case_catalog(ctx.tier) {
+        Ok(r) => r,
+        Err(e) => {
+            eprintln!("MACHINERY: certificate catalog: {}", e);
+            return 2;
+        }
+    };
+    for (sig, what, label) in cat_violations {
+        report.violation(sig.replacen("C19:", "C01:certificate-catalog:", 1), what, json!({"certificate_catalog": label}));
+    }
     let sample = specs.get(specs.len() / 2).map(|(s, _)| spec_json(s));
     let mut ev = Evidence::new("model_checking");
     ev.set("states", json!(outcomes.len() + honest_runs.len()))
@@ -852,10 +880,12 @@ pub fn run_check(ctx: &Ctx) -> i32 {
         .set("traces_validated_against_impl", json!(executed + honest_runs.len() as u64 * 2))
         .set("exhaustive", json!(true))
         .set("samples", json!([sample, {"untouched": spec_json(&honest_runs[0].0)}]))
+        .set("certificate_catalog_handshakes", json!(cat_runs))
+        .set("certificate_catalog_handshakes_ending_in_a_session", json!(cat_sessions))
         .set("vacuity", json!({"credential_configurations": honest_runs.len(), "attacker_runs": executed, "mutations_not_applicable": not_applicable, "runs_ending_with_sessions_at_both_ends": both, "runs_ending_with_no_session": none, "runs_ending_with_a_session_at_one_end_only": one_side, "distinct_end_states": outcomes.len()}))
         .set("rule", json!("every credential configuration of the catalog untouched (full handshake, and full + resumption handshake for the acceptable ones); for the acceptable ones every single attacker move (per TLV field: flip first bit / flip last bit / delete / truncate-at / transplant from another honest handshake; header bit flips of counter, exchange flags, opcode, exchange id; drop; duplicate; replay of the stale datagram of another handshake) on every first transmission of every handshake datagram incl. acks and the final status; thorough: additionally crossed with the loss of any one other handshake datagram. 'states' = distinct (sessions at I, sessions at R, results) end states"));
     ev.assume("cryptographic hardness (forging a signature / MAC, colliding a hash) is assumed, not enumerated");
-    ev.assume("invalid credentials are those expressible with the repo's public certificate generators (look-alike signer, wrong operational key, validity window, different root); the per-field certificate defect catalog is C19's");
+    ev.assume("invalid credentials: those expressible with the repo's public certificate generators (look-alike signer, wrong operational key, validity window, different root) crossed with the attacker moves, plus the single-defect certificate catalog of C19 (harness-side certificate writer) presented untouched by either side");
     ev.assume("a session held by the initiator only is reported as a violation; a session held by the responder only (final status lost or damaged) is what the property allows");
     if executed == 0 || both == 0 || none == 0 {
         eprintln!("MACHINERY: vacuous C01 run (executed {}, both {}, none {})", executed, both, none);
